@@ -9,7 +9,10 @@ import (
 	"sort"
 	"strings"
 	"sync"
+	"sync/atomic"
 	"time"
+
+	"github.com/anishathalye/porcupine"
 
 	"github.com/sdcio/data-server/pkg/datastore"
 	"github.com/sdcio/data-server/pkg/datastore/types"
@@ -32,7 +35,7 @@ type c16 struct {
 
 func init() { core.Register(&c16{}) }
 
-var c16Ops = []string{"confirm", "confirm-other", "cancel", "cancel-other", "expiry", "setB"}
+var c16Ops = []string{"confirm", "confirm-other", "cancel", "cancel-other", "expiry", "setB", "setA"}
 
 func (c *c16) ID() string      { return "C16" }
 func (c *c16) Level() string   { return "exploration" }
@@ -74,9 +77,9 @@ func (c *c16) schedCap(tier string, nops int) int {
 		return 4000
 	}
 	if nops <= 2 {
-		return 400
+		return 300
 	}
-	return 60
+	return 30
 }
 
 func (c *c16) Rule() string {
@@ -114,7 +117,15 @@ func (c *c16) CrashKey(tail string) (string, bool) {
 	return "", false
 }
 
+type opWindow struct {
+	call, ret int64
+}
+
 type c16Outcome struct {
+	windows   map[string]*opWindow
+	endStamp  int64
+	nameDev   string
+	nameRb    int
 	results   map[string]string // op -> error string ("<nil>" on success)
 	rollbacks int
 	finalDev  string
@@ -148,7 +159,7 @@ func errClass(err error) string {
 }
 
 // runSchedule executes ops under the choice vector on a fresh datastore.
-func (c *c16) runSchedule(ops []string, choices []int, res *core.CaseResult) (*c16Outcome, *sched.Result) {
+func (c *c16) runSchedule(ops []string, choices []int, res *core.CaseResult) (*c16Outcome, *sched.Result, []sched.Event) {
 	ds := c.env.NewDS(fixture.DSOpts{})
 	defer ds.Close()
 	ctx := context.Background()
@@ -163,11 +174,11 @@ func (c *c16) runSchedule(ops []string, choices []int, res *core.CaseResult) (*c
 	// baseline: intent oa = v0, confirmed
 	if _, err := ds.TransactionSet(ctx, "base", mk("oa", "/sys/descr", "v0", 10), nil, time.Hour, false); err != nil {
 		res.Inconclusive("C16/setup", "baseline set failed: %v", err)
-		return nil, nil
+		return nil, nil, nil
 	}
 	if err := ds.TransactionConfirm(ctx, "base"); err != nil {
 		res.Inconclusive("C16/setup", "baseline confirm failed: %v", err)
-		return nil, nil
+		return nil, nil, nil
 	}
 	withExpiry := false
 	for _, o := range ops {
@@ -177,6 +188,8 @@ func (c *c16) runSchedule(ops []string, choices []int, res *core.CaseResult) (*c
 	}
 	s := sched.New("ds.confirm", "ds.cancel", "ds.set", "tm.", "tx.confirm", "timer.")
 	s.ExemptSelf()
+	var clk atomic.Int64
+	s.Clock = func() int64 { return clk.Add(1) }
 	to := time.Hour
 	if withExpiry {
 		to = time.Millisecond
@@ -185,13 +198,13 @@ func (c *c16) runSchedule(ops []string, choices []int, res *core.CaseResult) (*c
 	if _, err := ds.TransactionSet(ctx, "A", mk("oa", "/sys/descr", "v1", 10), nil, to, false); err != nil {
 		s.Disable(nil)
 		res.Inconclusive("C16/setup", "set A failed: %v", err)
-		return nil, nil
+		return nil, nil, nil
 	}
 	setsBefore := ds.Dev.NumSets()
 	if !withExpiry {
 		s.Enable()
 	}
-	out := &c16Outcome{results: map[string]string{}}
+	out := &c16Outcome{results: map[string]string{}, windows: map[string]*opWindow{}}
 	var mu sync.Mutex
 	nOps := 0
 	for _, o := range ops {
@@ -202,6 +215,15 @@ func (c *c16) runSchedule(ops []string, choices []int, res *core.CaseResult) (*c
 		nOps++
 		s.Go(o, func() {
 			var err error
+			win := &opWindow{call: clk.Add(1)}
+			mu.Lock()
+			out.windows[o] = win
+			mu.Unlock()
+			defer func() {
+				mu.Lock()
+				win.ret = clk.Add(1)
+				mu.Unlock()
+			}()
 			defer func() {
 				if r := recover(); r != nil {
 					buf := make([]byte, 4096)
@@ -221,11 +243,16 @@ func (c *c16) runSchedule(ops []string, choices []int, res *core.CaseResult) (*c
 				err = ds.TransactionCancel(ctx, "A")
 			case "cancel-other":
 				err = ds.TransactionCancel(ctx, "Z")
-			case "setB":
+			case "setB", "setA":
+				// a competing TransactionSet; setA re-uses the id of the open transaction (ids are client supplied)
 				cctx, cancel := context.WithTimeout(ctx, 450*time.Millisecond)
 				defer cancel()
 				var rsp *sdcpb.TransactionSetResponse
-				rsp, err = ds.TransactionSet(cctx, "B", mk("ob", "/sys/name", "nb", 20), nil, time.Hour, false)
+				id, owner, val := "B", "ob", "nb"
+				if o == "setA" {
+					id, owner, val = "A", "oc", "nc"
+				}
+				rsp, err = ds.TransactionSet(cctx, id, mk(owner, "/sys/name", val, 20), nil, time.Hour, false)
 				if err == nil && rsp != nil {
 					mu.Lock()
 					out.bApplied = true
@@ -278,17 +305,137 @@ func (c *c16) runSchedule(ops []string, choices []int, res *core.CaseResult) (*c
 			out.rollbacks++
 		}
 	}
+	out.endStamp = clk.Add(1)
 	out.finalDev = ds.Dev.Snapshot()["/sys/descr"]
+	out.nameDev = ds.Dev.Snapshot()["/sys/name"]
+	for i, rec := range ds.Dev.AllSets() {
+		if i < setsBefore {
+			continue
+		}
+		seen := false
+		for _, d := range rec.Deletes {
+			if model.FromPb(d).Covers(model.Parse("/sys/name")) {
+				seen = true
+			}
+		}
+		if seen {
+			out.nameRb++
+		}
+	}
 	d, _ := fixture.DumpIntended(ctx, c.env.Cache, ds.Name)
 	im, _ := fixture.IntendedMap(d)
 	out.finalInt = im["sys,descr|oa|10"]
 	if id, _ := ds.VerifOpenTransaction(); id != "" {
 		out.results["open-at-end"] = id
 	}
-	return out, sr
+	return out, sr, s.Events
 }
 
-func (c *c16) judge(ops []string, out *c16Outcome, sr *sched.Result, res *core.CaseResult) {
+// schedState is the state of the sequential specification used to judge one schedule.
+type schedState struct {
+	open string // "" | A1 | A2 | B
+	a1   int    // 0 applied and open or kept, 2 rolled back
+	a2   int    // 0 not applied, 1 applied, 2 rolled back
+	b    int
+}
+
+type schedIn struct {
+	op string
+}
+
+type schedObs struct {
+	descr, name, open string
+	descrRollbacks    int
+	nameRollbacks     int
+}
+
+var c16SchedModel = porcupine.Model{
+	Init: func() interface{} { return schedState{open: "A1"} },
+	Step: func(state, input, output interface{}) (bool, interface{}) {
+		st := state.(schedState)
+		in := input.(schedIn)
+		switch in.op {
+		case "confirm", "cancel":
+			out := output.(string)
+			switch out {
+			case "<nil>":
+				switch st.open {
+				case "A1":
+					if in.op == "cancel" {
+						st.a1 = 2
+					}
+				case "A2":
+					if in.op == "cancel" {
+						st.a2 = 2
+					}
+				default:
+					return false, st
+				}
+				st.open = ""
+				return true, st
+			case "LOCKED":
+				return true, st
+			case "PROCESSING":
+				// the addressed transaction is registered but not applied yet: only possible for the competing A2
+				return true, st
+			}
+			return st.open != "A1" && st.open != "A2", st
+		case "confirm-other", "cancel-other":
+			return output.(string) != "<nil>", st
+		case "setA", "setB":
+			out := output.(string)
+			if out == "<nil>" {
+				if st.open != "" {
+					return false, st
+				}
+				if in.op == "setA" {
+					st.open, st.a2 = "A2", 1
+				} else {
+					st.open, st.b = "B", 1
+				}
+				return true, st
+			}
+			return true, st
+		case "expire":
+			if st.open == "A1" {
+				st.open, st.a1 = "", 2
+			}
+			return true, st
+		case "observe":
+			obs := output.(schedObs)
+			wantDescr, wantRb := "v1", 0
+			if st.a1 == 2 {
+				wantDescr, wantRb = "v0", 1
+			}
+			wantName, wantNameRb := "", 0
+			switch {
+			case st.a2 == 1:
+				wantName = "nc"
+			case st.b == 1:
+				wantName = "nb"
+			}
+			if st.a2 == 2 {
+				wantNameRb++
+			}
+			if st.b == 2 {
+				wantNameRb++
+			}
+			wantOpen := ""
+			switch st.open {
+			case "A1", "A2":
+				wantOpen = "A"
+			case "B":
+				wantOpen = "B"
+			}
+			ok := obs.descr == wantDescr && obs.descrRollbacks == wantRb && obs.name == wantName && obs.nameRollbacks == wantNameRb && obs.open == wantOpen
+			return ok, st
+		}
+		return false, st
+	},
+	DescribeOperation: func(input, output interface{}) string { return fmt.Sprintf("%s->%v", input.(schedIn).op, output) },
+}
+
+func (c *c16) judge(ops []string, out *c16Outcome, sr *sched.Result, evs []sched.Event, res *core.CaseResult) {
 	has := func(op string) bool {
 		for _, o := range ops {
 			if o == op {
@@ -297,7 +444,7 @@ func (c *c16) judge(ops []string, out *c16Outcome, sr *sched.Result, res *core.C
 		}
 		return false
 	}
-	where := fmt.Sprintf("ops=%v schedule=%v\n  outcome: %s", ops, sr.Trace, out)
+	where := fmt.Sprintf("ops=%v schedule=%v\n  outcome: %s name=%q nameRollbacks=%d", ops, sr.Trace, out, out.nameDev, out.nameRb)
 	for _, p := range out.panics {
 		if strings.HasPrefix(p, "STUCK") {
 			res.Violate("C16/deadlock", "operations neither finished nor reached a yield point for 5 s\n  %s\n%s", where, p)
@@ -305,47 +452,99 @@ func (c *c16) judge(ops []string, out *c16Outcome, sr *sched.Result, res *core.C
 			res.Violate("C16/panic-in-operation", "%s\n  %s", p, where)
 		}
 	}
-	confirmOK := out.results["confirm"] == "<nil>"
-	cancelOK := out.results["cancel"] == "<nil>"
-	if out.results["confirm-other"] == "<nil>" || out.results["cancel-other"] == "<nil>" {
-		res.Violate("C16/foreign-id-accepted", "an operation naming a foreign id succeeded\n  %s", where)
+	if len(out.panics) > 0 {
+		return
 	}
-	if confirmOK && cancelOK {
-		res.Violate("C16/confirm-and-cancel-both-succeeded", "%s", where)
+	// the effect of an operation on the slot happens under the transaction manager's lock: its window starts
+	// when it was released from the point after taking that lock (or from its last registration attempt)
+	lockedAt := map[string]int64{}
+	var expCall, expRet, expGid int64
+	for _, e := range evs {
+		if e.Label == "timer@timer.fired" {
+			expGid = e.Gid // the goroutine of the fired timer (other timer goroutines were merely stopped)
+		}
 	}
-	if out.rollbacks > 1 {
-		res.Violate("C16/rolled-back-twice", "transaction A was rolled back %d times\n  %s", out.rollbacks, where)
+	for _, e := range evs {
+		i := strings.IndexByte(e.Label, '@')
+		who, pt := e.Label[:i], e.Label[i+1:]
+		switch {
+		case who == "timer":
+			if e.Gid != expGid {
+				continue
+			}
+			switch pt {
+			case "timer.fired", "tm.rollback.beforeLock", "tm.rollback.locked":
+				expCall = e.T
+			case "timer.exit":
+				expRet = e.T
+			}
+		case pt == "tm.confirm.locked" || pt == "tm.cancel.locked" || pt == "ds.set.register":
+			lockedAt[who] = e.T
+		}
 	}
-	if confirmOK && out.rollbacks > 0 {
-		res.Violate("C16/confirmed-transaction-rolled-back", "Confirm returned success but the transaction was rolled back\n  %s", where)
+	var hist []porcupine.Operation
+	cid := 0
+	for op, w := range out.windows {
+		call := w.call
+		if t, ok := lockedAt[op]; ok && t > call {
+			call = t
+		}
+		ret := w.ret
+		if ret == 0 {
+			ret = out.endStamp
+		}
+		o := out.results[op]
+		if strings.Contains(o, "still being processed") {
+			o = "PROCESSING"
+		} else if strings.HasPrefix(o, "ERR(") {
+			o = "ERR"
+		}
+		cid++
+		hist = append(hist, porcupine.Operation{ClientId: cid, Input: schedIn{op}, Output: o, Call: call, Return: ret})
 	}
-	if cancelOK && out.rollbacks != 1 {
-		res.Violate("C16/cancel-succeeded-without-single-rollback", "Cancel returned success, rollbacks=%d\n  %s", out.rollbacks, where)
+	if has("expiry") {
+		if expCall == 0 {
+			expCall = 1
+		}
+		if expRet == 0 {
+			expRet = out.endStamp
+		}
+		cid++
+		hist = append(hist, porcupine.Operation{ClientId: cid, Input: schedIn{"expire"}, Output: "", Call: expCall, Return: expRet})
 	}
-	// state agrees with the outcome
-	kept := out.rollbacks == 0
-	wantVal := "v1"
-	if !kept {
-		wantVal = "v0"
+	obs := schedObs{descr: out.finalDev, name: out.nameDev, open: out.results["open-at-end"], descrRollbacks: out.rollbacks, nameRollbacks: out.nameRb}
+	cid++
+	hist = append(hist, porcupine.Operation{ClientId: cid, Input: schedIn{"observe"}, Output: obs, Call: out.endStamp + 1, Return: out.endStamp + 2})
+	r, _ := porcupine.CheckOperationsVerbose(c16SchedModel, hist, 10*time.Second)
+	if r == porcupine.Illegal {
+		key := "C16/outcome-has-no-sequential-explanation"
+		switch {
+		case out.results["confirm"] == "<nil>" && out.rollbacks > 0 && out.results["cancel"] != "<nil>":
+			key = "C16/confirmed-transaction-rolled-back"
+		case out.rollbacks > 1:
+			key = "C16/rolled-back-twice"
+		case out.results["confirm-other"] == "<nil>" || out.results["cancel-other"] == "<nil>":
+			key = "C16/foreign-id-accepted"
+		}
+		desc := []string{}
+		for _, h := range hist {
+			desc = append(desc, fmt.Sprintf("[%d,%d] %s->%v", h.Call, h.Return, h.Input.(schedIn).op, h.Output))
+		}
+		sort.Strings(desc)
+		res.Violate(key, "answers, rollbacks and final state of this schedule cannot be explained by any order of the operations on the transaction slot\n  %s\n  history: %s", where, strings.Join(desc, " | "))
+	} else if r == porcupine.Unknown {
+		res.Inconclusive("C16/checker-timeout", "%s", where)
 	}
-	if out.finalDev != wantVal || out.finalInt != wantVal {
-		res.Violate("C16/state-disagrees-with-outcome", "rollbacks=%d but device has %q and the intended store %q (want %q)\n  %s", out.rollbacks, out.finalDev, out.finalInt, wantVal, where)
+	if out.finalInt != out.finalDev {
+		res.Violate("C16/intended-and-device-disagree", "device has %q, the intended store %q\n  %s", out.finalDev, out.finalInt, where)
 	}
-	// exactly one outcome must be reached when something that resolves the transaction took part and succeeded / fired
-	if has("expiry") && !confirmOK && out.rollbacks != 1 {
-		res.Violate("C16/expired-transaction-not-rolled-back-once", "the timer expired, Confirm did not succeed, rollbacks=%d\n  %s", out.rollbacks, where)
-	}
-	if id := out.results["open-at-end"]; id == "A" && (confirmOK || cancelOK || has("expiry")) {
-		res.Violate("C16/still-open-after-resolution", "transaction A is still registered\n  %s", where)
-	}
-	// refused merely because a Set is waiting
-	if has("setB") {
+	// refused merely because a Set is waiting (other Confirm/Cancel calls legitimately hold the datastore lock for a moment)
+	if has("setB") || has("setA") {
 		for _, op := range []string{"confirm", "cancel"} {
 			other := "cancel"
 			if op == "cancel" {
 				other = "confirm"
 			}
-			// other Confirm/Cancel calls legitimately hold the datastore lock for a moment
 			if out.results[op] == "LOCKED" && !has(other) && !has("confirm-other") && !has("cancel-other") {
 				res.Violate("C16/refused-because-set-is-waiting", "%s for the open transaction was refused with ErrDatastoreLocked while only a competing TransactionSet was waiting\n  %s", op, where)
 			}
@@ -372,7 +571,7 @@ func (c *c16) RunCase(w *core.Worker, idx int, seed uint64, res *core.CaseResult
 	for len(stack) > 0 && runs < capN {
 		ch := stack[len(stack)-1]
 		stack = stack[:len(stack)-1]
-		out, sr := c.runSchedule(ops, ch, res)
+		out, sr, evs := c.runSchedule(ops, ch, res)
 		if out == nil {
 			return
 		}
@@ -380,7 +579,7 @@ func (c *c16) RunCase(w *core.Worker, idx int, seed uint64, res *core.CaseResult
 		tk := strings.Join(sr.Trace, ">")
 		if !traces[tk] {
 			traces[tk] = true
-			c.judge(ops, out, sr, res)
+			c.judge(ops, out, sr, evs, res)
 		}
 		outcomes[out.String()]++
 		for i := len(ch); i < len(sr.NOpts); i++ {
